@@ -328,16 +328,16 @@ def index_expr(I, st, fr, e, base, ix):
     if isinstance(base, VSeq):
         if isinstance(ix, VNat):
             I.pre_ge(st, fr, e, "index", t_len(base.t), ix.p + 1, f"{show_poly(ix.p)} < len({show_term(base.t)})")
+            tyd = I.facts.ty(e["ty"])
+            if tyd["k"] == "bool":
+                # element of a vector of flags: an unknown boolean that is a function of the vector and the position
+                return [(st, VBool(("unk", ("flag", base.t, ix.p))), None)]
             # indexing by the arbitrary element of another sequence: arbitrary element of the gather
             at = ix.p.atoms()
             if len(ix.p.t) == 1 and len(at) == 1:
                 a = next(iter(at))
                 if isinstance(a, tuple) and a[0] == "elem" and ix.p == Poly.atom(a):
                     return [(st, elem_of_gather(I, st, base.t, a[1], e), None)]
-            tyd = I.facts.ty(e["ty"])
-            if tyd["k"] == "bool":
-                # element of a vector of flags: an unknown boolean that is a function of the vector and the position
-                return [(st, VBool(("unk", ("flag", base.t, ix.p))), None)]
             return [(st, seq_elem(I, st, base, ix.p, label_of(base.t) or tyd["k"] == "param"), None)]
         if isinstance(ix, (VRange, VRec)):
             import prims
